@@ -81,6 +81,50 @@ def run(ctx):
         ctx.formula('FORMULA', f'{c.split(".")[-1]}.dt == 1/sample_rate', fi, d2['dt'],
                     ctx.spec(fi, '1 / self.sample_rate', I=ctx.interp(expand=False)), node=fi.node, construct='self.dt')
 
+    # constructors: both polarisation streams share the antenna's rate, band, orientation and start time
+    ctx.clause = 'D1b'
+    REF_DS_INIT = """
+def __init__(self, sample_rate=3*u.GHz, fch1=0*u.GHz, ascending=True, t_start=0, seed=None):
+    self.rng = xp.random.default_rng(seed)
+    self.sample_rate = unit_utils.get_value(sample_rate, u.Hz)
+    self.dt = 1 / self.sample_rate
+    self.fch1 = unit_utils.get_value(fch1, u.Hz)
+    self.ascending = ascending
+    self.noise_std = 0
+    self.bg_noise_std = 0
+    self.t_start = t_start
+    self.start_obs = True
+    self.ts = None
+    self.v = None
+    self.noise_sources = []
+    self.signal_sources = []
+"""
+    REF_ANT_INIT = """
+def __init__(self, sample_rate=3*u.GHz, fch1=0*u.GHz, ascending=True, num_pols=2, t_start=0, seed=None, **kwargs):
+    self.rng = xp.random.default_rng(seed)
+    self.sample_rate = unit_utils.get_value(sample_rate, u.Hz)
+    self.dt = 1 / self.sample_rate
+    self.fch1 = unit_utils.get_value(fch1, u.Hz)
+    self.ascending = ascending
+    assert num_pols in [1, 2]
+    self.num_pols = num_pols
+    self.t_start = t_start
+    self.start_obs = True
+    self.x = data_stream.DataStream(sample_rate=self.sample_rate, fch1=self.fch1, ascending=self.ascending, t_start=self.t_start,
+                                    seed=int(self.rng.integers(2**31)))
+    self.streams = [self.x]
+    if self.num_pols == 2:
+        self.y = data_stream.DataStream(sample_rate=self.sample_rate, fch1=self.fch1, ascending=self.ascending, t_start=self.t_start,
+                                        seed=int(self.rng.integers(2**31)))
+        self.streams.append(self.y)
+    self.delay = None
+    self.bg_cache = [None, None]
+"""
+    agree_ref(ctx, ctx.func(DS + '__init__'), REF_DS_INIT, 'DataStream.__init__: clock starts at t_start with the start-of-observation '
+              'flag set, no sources', what=('attrstores',), expand=False, max_depth=0)
+    agree_ref(ctx, ctx.func(AN + '__init__'), REF_ANT_INIT, 'Antenna.__init__: x and y streams built with the antenna\'s rate, band, '
+              'orientation and start time', what=('attrstores', 'calls', 'asserts'), expand=False, max_depth=0)
+
     # ---- D3 accumulation of sources
     ctx.clause = 'D3'
     gs = ctx.func(DS + 'get_samples')
